@@ -50,11 +50,16 @@ def gen_numpy_tables():
 
 def regenerate(prop_id):
     problems = []
-    if prop_id in (None, "C03", "C11"):
+    if prop_id in (None, "C03"):
         try:
             gen_numpy_tables()
         except HarnessError as e:
             problems.append("numpy tables: %s" % e)
+    if prop_id in (None, "C11"):
+        import routes_translate
+        pr, tables = routes_translate.regenerate()
+        routes_translate.last = (pr, tables)
+        problems += pr
     if prop_id in (None, "C02"):
         try:
             import vjp_translate
